@@ -311,3 +311,70 @@ pub fn observe(v: &Value) -> Value {
     Err(e) => json!({"panicked": true, "message": crate::panic_msg(e)}),
   }
 }
+
+
+fn apply_history(src: &BoxSource, h: Option<&Vec<Value>>) {
+  if let Some(h) = h {
+    for op in h {
+      match op.as_str().unwrap_or("") {
+        "map1" => {
+          let _ = src.map(&MapOptions::new(true));
+        }
+        "map0" => {
+          let _ = src.map(&MapOptions::new(false));
+        }
+        "c1f0" => {
+          let _ = stream(src, true, false);
+        }
+        "c0f0" => {
+          let _ = stream(src, false, false);
+        }
+        "source" => {
+          let _ = src.source();
+        }
+        "size" => {
+          let _ = src.size();
+        }
+        "buffer" => {
+          let _ = src.buffer();
+        }
+        "rope" => {
+          let _ = src.rope().len();
+        }
+        "hash" => {
+          let _ = hash_of(src);
+        }
+        _ => {}
+      }
+    }
+  }
+}
+
+fn hash_of(src: &BoxSource) -> u64 {
+  use std::hash::{Hash, Hasher};
+  let mut h = std::collections::hash_map::DefaultHasher::new();
+  src.hash(&mut h);
+  h.finish()
+}
+
+/// C14 / C20: two trees, an observer history on the first, then ==, hashes, clone.
+pub fn eqhash(v: &Value) -> Value {
+  let r = catch_unwind(AssertUnwindSafe(|| {
+    let a = build(&v["a"]);
+    let b = build(&v["b"]);
+    apply_history(&a, v["history"].as_array());
+    let ab = a == b.clone();
+    let ba = b == a.clone();
+    let ha = hash_of(&a);
+    let hb = hash_of(&b);
+    let c = a.clone();
+    let ca = c == a.clone();
+    let hc = hash_of(&c);
+    json!({"ab": ab, "ba": ba, "hash_a": ha.to_string(), "hash_b": hb.to_string(), "clone_eq": ca, "hash_clone": hc.to_string(),
+           "source_a": a.source().to_string(), "source_b": b.source().to_string(), "source_clone": c.source().to_string()})
+  }));
+  match r {
+    Ok(x) => x,
+    Err(e) => json!({"panicked": true, "message": crate::panic_msg(e)}),
+  }
+}
